@@ -70,10 +70,50 @@ def run(tier):
     from . import c11
     c11._e_wrapper_direction(chk, rule="C05.e")
     _e_operator_direction(chk)
+    _e_options_chain(chk)
     # the public facade binds every argument to the service parameter it is meant for (nominal swap rule, rules/common.py)
     from . import common as _common
     _common.facade_bindings(chk, "C05.d-facade", ['hiten.system.orbits'], floor=5)
     return chk
+
+
+def _e_options_chain(chk):
+    """The correction runs with the options of the call: _OrbitCorrectionInterface.create_problem and to_backend_inputs are
+    interpreted with symbolic options and a model configuration; tolerance, iteration limit, step cap and finite-difference
+    step reach the backend request, and direction / integrator order / steps / indices / event reach the operators, each
+    under its own name (and the analytic Jacobian is used exactly when finite differences are not configured)."""
+    imod, icls = ri.find_def(IFC, "_OrbitCorrectionInterface")
+    TOL, MA, MD, FD, ORD, ST = (sp.Symbol(n) for n in ("TOL", "MAX_ATTEMPTS", "MAX_DELTA", "FD_STEP", "ORDER", "STEPS"))
+    for fd_cfg in (False, True):
+        ops_kw, req_kw = {}, {}
+        base = SymObj(None, {"integration": SymObj(None, {"order": ORD, "steps": ST}, "io"), "convergence": SymObj(None, {"max_attempts": MA, "tol": TOL, "max_delta": MD}, "co"),
+                             "numerical": SymObj(None, {"fd_step": FD}, "no")}, "base")
+        opts = SymObj(None, {"base": base, "forward": -1}, "options")
+        cfg = SymObj(None, {"control_indices": (0, 4), "residual_indices": (3, 5), "target": (0, 0), "extra_jacobian": sp.Symbol("XJ"), "event_func": sp.Symbol("EVENT"),
+                            "integration": SymObj(None, {"method": "adaptive"}, "ic"), "numerical": SymObj(None, {"finite_difference": fd_cfg}, "nc")}, "config")
+        ops = SymObj(None, {"build_residual_fn": lambda: sp.Symbol("RESIDUAL_FN"), "build_jacobian_fn": lambda: sp.Symbol("JACOBIAN_FN")}, "ops")
+        ip = Interp(overrides={"_SingleShootingOrbitOperators": lambda ip_, a, k: (ops_kw.update(k), ops)[1],
+                               "CorrectorInput": lambda ip_, a, k: (req_kw.update(k), SymObj(None, dict(k), "request"))[1],
+                               "_BackendCall": lambda ip_, a, k: SymObj(None, dict(k), "call")})
+        dom = SymObj(None, {}, "orbit")
+        iface = SymObj(ClassRef(imod, icls), {"_norm_fn": lambda: sp.Symbol("NORM_FN"), "_initial_guess": lambda d, c: sp.Symbol("GUESS")}, "interface")
+        try:
+            prob = ip.apply(ip.getattr(iface, "create_problem"), [], {"domain_obj": dom, "config": cfg, "options": opts, "stepper_factory": sp.Symbol("STEPPER")})
+            ip.apply(ip.getattr(iface, "to_backend_inputs"), [prob], {})
+        except OutsideFragment as exc:
+            raise AnalysisError(f"correction options chain outside fragment: {exc}")
+        chk.count("functions partially evaluated", 2)
+        want_ops = {"domain_obj": dom, "control_indices": (0, 4), "residual_indices": (3, 5), "target": (0, 0), "extra_jacobian": sp.Symbol("XJ"), "event_func": sp.Symbol("EVENT"),
+                    "forward": -1, "method": "adaptive", "order": ORD, "steps": ST}
+        bad = {k: ops_kw.get(k) for k, v in want_ops.items() if not (k in ops_kw and (ops_kw[k] is v or ops_kw[k] == v))}
+        chk.check(not bad, "C05.e", f"{IFC}::_OrbitCorrectionInterface.create_problem[operators,fd={fd_cfg}]",
+                  f"the shooting operators are built with {bad} instead of {dict((k, want_ops[k]) for k in bad)}", sample="operators: indices, target, event, forward, method, order, steps of the call")
+        want_req = {"initial_guess": sp.Symbol("GUESS"), "residual_fn": sp.Symbol("RESIDUAL_FN"), "jacobian_fn": (None if fd_cfg else sp.Symbol("JACOBIAN_FN")), "norm_fn": sp.Symbol("NORM_FN"),
+                    "max_attempts": MA, "tol": TOL, "max_delta": MD, "fd_step": FD}
+        bad = {k: req_kw.get(k) for k, v in want_req.items() if not (k in req_kw and (req_kw[k] is v or req_kw[k] == v))}
+        chk.check(not bad, "C05.e", f"{IFC}::_OrbitCorrectionInterface.to_backend_inputs[fd={fd_cfg}]",
+                  f"the backend request carries {bad} instead of {dict((k, want_req[k]) for k in bad)}: the Newton iteration does not run with the options of the call",
+                  sample="request: tol, max_attempts, max_delta, fd_step, residual / Jacobian / norm functions of this problem")
 
 
 def _e_operator_direction(chk):
